@@ -972,8 +972,15 @@ scale_until(rrulsp_t rr)
 		u = echs_instant_detach_scale(
 			echs_instant_rescale(u, rr->scale));
 		if (UNLIKELY(echs_nul_instant_p(u))) {
-			/* beyond the scale, so is everything else */
+			/* beyond the scale (the table calendars start in
+			 * the 1930s and end after 2020): past its end so
+			 * is everything else, before its beginning the
+			 * rule is over before it starts */
 			u = rr->until;
+			if (u.y < 2000U) {
+				u = (echs_instant_t){.y = 1U, .m = 1U, .d = 1U,
+						     .H = ECHS_ALL_DAY};
+			}
 		}
 	}
 	return u;
